@@ -1203,7 +1203,8 @@ class XsdUnion(XsdSimpleType):
             else:
                 if patterns and isinstance(obj, (str, bytes)):
                     try:
-                        patterns(mt.normalize(obj))
+                        for pattern in patterns:
+                            pattern(mt.normalize(obj))
                     except XMLSchemaValidationError as err:
                         context.validation_error(validation, self, err)
                 return result
@@ -1214,7 +1215,8 @@ class XsdUnion(XsdSimpleType):
             result = xsd_type.raw_decode(obj, validation, context)
             if patterns and isinstance(obj, (str, bytes)):
                 try:
-                    patterns(xsd_type.normalize(obj))
+                    for pattern in patterns:
+                        pattern(xsd_type.normalize(obj))
                 except XMLSchemaValidationError as err:
                     context.validation_error(validation, self, err)
             return result
@@ -1237,7 +1239,8 @@ class XsdUnion(XsdSimpleType):
             else:
                 if patterns and isinstance(result, str):
                     try:
-                        patterns(mt.normalize(result))
+                        for pattern in patterns:
+                            pattern(mt.normalize(result))
                     except XMLSchemaValidationError as err:
                         context.validation_error(validation, self, err)
                 return result
@@ -1248,7 +1251,8 @@ class XsdUnion(XsdSimpleType):
             result = xsd_type.raw_encode(obj, validation, context)
             if patterns and isinstance(result, str):
                 try:
-                    patterns(result)
+                    for pattern in patterns:
+                        pattern(result)
                 except XMLSchemaValidationError as err:
                     context.validation_error(validation, self, err)
             return result
@@ -1472,7 +1476,9 @@ class XsdAtomicRestriction(XsdAtomic):
                     except XMLSchemaValidationError as err:
                         context.validation_error(validation, self, err)
                 elif context.patterns is None:
-                    context.patterns = self.patterns
+                    context.patterns = [self.patterns]
+                else:
+                    context.patterns.append(self.patterns)
 
         if isinstance(self.base_type, XsdSimpleType):
             base_type = self.base_type
@@ -1514,9 +1520,11 @@ class XsdAtomicRestriction(XsdAtomic):
         elif isinstance(obj, (str, bytes)):
             obj = self.normalize(obj)
 
-        if self.patterns:
-            if context.patterns is None and isinstance(self.primitive_type, XsdUnion):
-                context.patterns = self.patterns
+        if self.patterns and isinstance(self.primitive_type, XsdUnion):
+            if context.patterns is None:
+                context.patterns = [self.patterns]
+            else:
+                context.patterns.append(self.patterns)
 
         result = base_type.raw_encode(obj, validation, context)
 
